@@ -580,21 +580,21 @@ theorem specStep_refines (w : World) (op : Op) (h : WOk w) (hin : inContract w o
       refine AWorld.ext4 ?_ rfl rfl ?_
       · exact (absW_setCif w e.cif _).symm
       · exact absW_its_free w _ e.cif hb rfl (fun j hj => getD_set_ne' _ _ _ _ hj)
-  | mkBlock c n =>
+  | mkBlock c n len =>
     simp only [specStep, step, liveC_absW]
     cases hl : w.liveC c with
     | none => rfl
     | some s =>
       have hb : w.cifBusy c = false := okC_free hin hl
       have hg := (h.good.live hl).db
-      obtain ⟨h1, h2⟩ := createBlock_spec s n hg (h.autocommit hl hb)
+      obtain ⟨h1, h2⟩ := createBlock_specL s n len hg (h.autocommit hl hb)
       simp only [Option.map_some]
       rw [← h1, ← h2]
       simp only [Option.some.injEq, Prod.mk.injEq, and_true]
       refine AWorld.ext4 ?_ rfl rfl ?_
       · exact (absW_setCif w c _).symm
       · exact absW_its_free w _ c hb rfl (fun j hj => getD_set_ne' _ _ _ _ hj)
-  | mkFrame hh n =>
+  | mkFrame hh n len =>
     simp only [specStep, step, liveH_absW]
     cases hl : w.liveH hh with
     | none => rfl
@@ -603,7 +603,7 @@ theorem specStep_refines (w : World) (op : Op) (h : WOk w) (hin : inContract w o
       have hin' : w.cifBusy e.cif = false ∧ e.h.validB s.db = true := okH_free hin hl
       have hb := hin'.1
       have hg := (h.good.live (liveH_liveC hl)).db
-      obtain ⟨h1, h2⟩ := createFrame_spec s e.h n hg (h.autocommit (liveH_liveC hl) hin'.1) hin'.2
+      obtain ⟨h1, h2⟩ := createFrame_specL s e.h n len hg (h.autocommit (liveH_liveC hl) hin'.1) hin'.2
       simp only [Option.map_some]
       rw [← h1, ← h2]
       simp only [Option.some.injEq, Prod.mk.injEq, and_true]
